@@ -327,9 +327,15 @@ fn scenario(kind: Kind, seed: u64, k: u64, out: &Out) {
             Kind::C04 => *rng.pick(&["fork", "fork", "grow", "restart", "fetch_tx"]),
             Kind::C09 => *rng.pick(&["set_all", "set_partial", "set_partial", "set_delete", "grow", "restart"]),
         };
-        // C09: a third of the set_scripts calls arrive in the middle of a round - timers fired, only a few of the queued
+        // C09 / C03: a third of the user's calls arrive in the middle of a round - timers fired, only a few of the queued
         // messages delivered, requests and answers (BlockFilters, SendBlock, proofs) still in flight when the RPC runs
-        if kind == Kind::C09 && action.starts_with("set_") && rng.chance(1, 3) {
+        let mid_round = match kind {
+            Kind::C09 => action.starts_with("set_"),
+            // C03: the user's calls (fetch_transaction, fetch_header, a further set_scripts, a restart) interleave with sync steps
+            Kind::C03 => action != "grow",
+            Kind::C04 => false,
+        };
+        if mid_round && rng.chance(1, 3) {
             w.round_no += 1;
             w.advance(1000);
             w.fire_due(&mut hook);
